@@ -9,5 +9,5 @@ PROP = "C07"
 
 
 def run(tier, seed):
-    return speccheck.run(PROP, tier, seed, ["union", "union", "scen_union_const", "scen_union_distinct", "join", "union", "general"], 300, 10000, also=("C01",),
+    return speccheck.run(PROP, tier, seed, ["union", "union", "scen_union_const", "scen_union_distinct", "scen_union_agg_right", "join", "union", "general"], 300, 10000, also=("C01",),
                          assumptions=["different-backend unions cannot be expressed within one program run; that refusal is not exercised"])
